@@ -23,7 +23,8 @@ if args:
 for d in dirs:
     name = os.path.basename(d)
     meta = json.load(open(os.path.join(d, "meta.json")))
-    props = [meta["breaks_property"]] + [p for p in also if p != meta["breaks_property"]]
+    props = [meta["breaks_property"]] + [p for p in meta.get("also_mentioned", []) + also if p != meta["breaks_property"]]
+    props = list(dict.fromkeys(props))
     patch = os.path.join(d, "patch.diff")
     rc, out = sh("git apply %s" % patch, "/repo")
     if rc != 0:
